@@ -163,8 +163,11 @@ class C01Machine(Machine):
                 if spec['byteord'] == '':
                     spec['byteord'] = '1,2,3'
             return {'arm': 'unsupported', 'kind': kind, 'spec': spec}
-        return {'arm': 'intact', 'spec': fcsgen.gen_spec(rng, bulk_p=0.0015), 'reload': rng.chance(0.3),
+        case = {'arm': 'intact', 'spec': fcsgen.gen_spec(rng, bulk_p=0.0015), 'reload': rng.chance(0.3),
                 'fileobj': rng.chance(0.15), 'bytesio': rng.chance(0.05)}
+        if rng.chance(0.35) and case['reload']:
+            case['reload'] = 'overwrite'          # storage history A instead of B (see execute)
+        return case
 
     def summarise(self, case):
         s = dict(case['spec'])
@@ -255,22 +258,24 @@ class C01Machine(Machine):
                 # storage history: the same durable file booted again after the first sample was modified in memory
                 if case.get('reload') and o['kind'] == 'ok' and o.get('obj') is not None:
                     d = o['obj']
-                    # storage history: the durable file is overwritten in place (same length, every byte changed) after the
-                    # load - an acquisition program re-using the file name, a sync tool; the sample loaded earlier holds
-                    # the events recorded when it was loaded
-                    pth = dk.path('f.fcs')
-                    orig = dk.files['f.fcs']
-                    with open(pth, 'r+b') as fh:
-                        fh.write((np.frombuffer(orig, dtype=np.uint8) ^ 0xFF).tobytes())
-                    now = np.array(d.view(np.ndarray))
-                    log.add('overwritten-in-place', arr_fp(now))
-                    if not data_equal(now, T['data']):
-                        out['violations'].append(violation(
-                            'C01/values', 'overwrite-after-load/%s' % lc,
-                            'the sample changed when its file was overwritten in place after loading'))
-                    with open(pth, 'r+b') as fh:
-                        fh.write(orig)
-                    out['probes']['file_overwritten_in_place_after_load'] = 1
+                    if case.get('reload') == 'overwrite':
+                        # storage history A: the durable file is overwritten in place (same length, every byte changed)
+                        # after the load - an acquisition program re-using the file name, a sync tool; the sample loaded
+                        # earlier holds the events recorded when it was loaded. (Kept apart from history B below, which
+                        # needs the very same inode AND modification time for its second load.)
+                        pth = dk.path('f.fcs')
+                        orig = dk.files['f.fcs']
+                        with open(pth, 'r+b') as fh:
+                            fh.write((np.frombuffer(orig, dtype=np.uint8) ^ 0xFF).tobytes())
+                        now = np.array(d.view(np.ndarray))
+                        log.add('overwritten-in-place', arr_fp(now))
+                        if not data_equal(now, T['data']):
+                            out['violations'].append(violation(
+                                'C01/values', 'overwrite-after-load/%s' % lc,
+                                'the sample changed when its file was overwritten in place after loading'))
+                        with open(pth, 'r+b') as fh:
+                            fh.write(orig)
+                        out['probes']['file_overwritten_in_place_after_load'] = 1
                     try:
                         if d.size:
                             d[...] = 0 if spec['datatype'] == 'I' else -1.0
@@ -279,7 +284,7 @@ class C01Machine(Machine):
                         d.analysis['__verif__'] = 'x'
                     except Exception as e:
                         out['violations'].append(violation('C01/values', 'reload/modify-raises/' + type(e).__name__, str(e)[:200]))
-                    for cls in ('FCSData', 'FCSFile'):
+                    for cls in (('FCSData', 'FCSFile') if case.get('reload') != 'overwrite' else ()):
                         o2 = ld.load('f.fcs', cls, rewrite=False)
                         out['evals'] += 1
                         log.add('reload', cls, o2['kind'], arr_fp(o2['data']) if o2['kind'] == 'ok' else None)
@@ -288,7 +293,8 @@ class C01Machine(Machine):
                             out['violations'].append(violation(
                                 'C01/values', 'reload/%s/%s' % (cls, lc),
                                 'second load of the unchanged file after the first sample was modified in memory differs from the file'))
-                    out['probes']['reload_after_in_memory_modification'] = 1
+                    if case.get('reload') != 'overwrite':
+                        out['probes']['reload_after_in_memory_modification'] = 1
                 if fcs_ref.n_events(spec) >= 1:
                     rc = sorted({('full' if int(r) == 1 << w else 'pow2' if int(r) & (int(r) - 1) == 0 else 'odd')
                                  for r, w in zip(spec['ranges'], spec['widths'])})
